@@ -23,8 +23,11 @@ type rpmPoint struct {
 }
 
 type c13Attach struct {
-	Nil  bool       `json:"nil,omitempty"`
-	Data []rpmPoint `json:"data"`
+	Nil bool `json:"nil,omitempty"`
+	// SameMap: the caller refreshes the map object it attached before in place and attaches it again
+	// (different data, same pointer) instead of allocating a new one
+	SameMap bool       `json:"sameMap,omitempty"`
+	Data    []rpmPoint `json:"data"`
 }
 
 type c13Scenario struct {
@@ -99,7 +102,9 @@ func genC13(t *rapid.T) c13Scenario {
 	}
 	n := rapid.IntRange(1, 3).Draw(t, "nAttach")
 	for i := 0; i < n; i++ {
-		sc.Attaches = append(sc.Attaches, genRpmData(t))
+		a := genRpmData(t)
+		a.SameMap = i > 0 && rapid.IntRange(0, 2).Draw(t, "sameMap") == 0
+		sc.Attaches = append(sc.Attaches, a)
 	}
 	return sc
 }
@@ -149,6 +154,7 @@ func runC13(t *testing.T, sc c13Scenario) (v verdict) {
 	get := func() snap { return snap{fan.GetMinPwm(), fan.GetStartPwm(), fan.GetMaxPwm()} }
 	var outcome []snap
 	var prevData []rpmPoint
+	var lastMap *map[int]float64
 	for i, a := range sc.Attaches {
 		before := get()
 		var err error
@@ -167,11 +173,16 @@ func runC13(t *testing.T, sc c13Scenario) (v verdict) {
 			outcome = append(outcome, get())
 			continue
 		}
-		m := map[int]float64{}
-		for _, p := range a.Data {
-			m[p.Pwm] = p.Rpm
+		mp := &map[int]float64{}
+		if a.SameMap && lastMap != nil {
+			mp = lastMap
+			clear(*mp)
 		}
-		if err = fan.AttachFanRpmCurveData(&m); err != nil {
+		for _, p := range a.Data {
+			(*mp)[p.Pwm] = p.Rpm
+		}
+		lastMap = mp
+		if err = fan.AttachFanRpmCurveData(mp); err != nil {
 			add("attach-failed", fmt.Sprintf("attach %d: %v", i, err))
 		}
 		after := get()
